@@ -80,7 +80,9 @@ public:
 
   void set_int(const char *value)
   {
-    value_int = atoll(value);
+    // strtoull so that decimal literals up to 2^64 - 1 keep all of their
+    // bits (atoll clamps everything above INT64_MAX).
+    value_int = (int64_t)strtoull(value, NULL, 10);
     type = VAR_INT;
   }
 
